@@ -45,6 +45,25 @@ void prop_binom(const Case& cs) {
       plb = lb; pub = ub;
       ++pts;
     }
+    // the two closed-form cells of the definition (tail probability delta(kappa) = P(Z > kappa) of the binomial tails):
+    //   n = 0: the upper bound is the smallest N with P(no sample retained | N) = (1-theta)^N <= delta
+    // (relative 2e-4 on delta: the library tabulates delta with ~6e-5 relative deviation from the exact normal tail, and evaluates
+    //  log(1-theta) directly, which loses ~1e-7 at theta = 1e-9)
+    //   n = 1: the lower bound is the largest N with P(at least one retained | N) = 1 - (1-theta)^N <= delta
+    if (theta < 1.0 && n <= 1) {
+      for (unsigned sd = 1; sd <= 3; ++sd) {
+        const double delta = 0.5 * std::erfc(sd / std::sqrt(2.0));
+        const double l1 = std::log1p(-theta);
+        if (n == 0) {
+          double ub = binomial_bounds::get_upper_bound(0, theta, sd);
+          VF_CHECK(ub * l1 <= std::log(delta * 1.0002), "binom-ub-tail-n0", "n=0 theta=" << theta << " sd=" << sd << ": upper bound " << ub << " leaves P(0 retained | N=ub) = " << std::exp(ub * l1) << " above delta " << delta);
+          VF_CHECK((ub - 1) * l1 > std::log(delta * 0.9998) || ub <= 1, "binom-ub-tight-n0", "n=0 theta=" << theta << " sd=" << sd << ": upper bound " << ub << " is not the smallest N with (1-theta)^N <= delta " << delta);
+        } else {
+          double lb = binomial_bounds::get_lower_bound(1, theta, sd);
+          if (lb > 1.0) VF_CHECK(-std::expm1(lb * l1) <= delta * 1.0002, "binom-lb-tail-n1", "n=1 theta=" << theta << " sd=" << sd << ": lower bound " << lb << " leaves P(>=1 retained | N=lb) = " << -std::expm1(lb * l1) << " above delta " << delta);
+        }
+      }
+    }
     if (theta == 1.0) {
       VF_CHECK(binomial_bounds::get_lower_bound(n, theta, 2) == n && binomial_bounds::get_upper_bound(n, theta, 2) == n, "binom-exact-theta1", "theta=1 bounds not exact for n=" << n);
     }
